@@ -23,10 +23,11 @@ def checked_obligation(ctx, name, text, n):
     """ctx.coq_obligation with a content-addressed memo: the text is regenerated from the current source on
     every run; when it is byte-identical to a text coqc accepted before (same compiled dependencies), the recorded
     acceptance is reused instead of running coqc again.  Any change of the source or of the theories changes the
-    key and forces a real compile.  VERIF_NO_OBLIGATION_CACHE=1 disables the memo."""
+    key and forces a real compile.  The memo is a development convenience and OFF unless VERIF_OBLIGATION_CACHE=1:
+    a registered check run has coqc accept every regenerated obligation again."""
     key = hashlib.sha1((text + "|" + _deps_digest()).encode()).hexdigest()
     stamp = os.path.join(ctx.bdir, name + ".accepted")
-    if os.environ.get("VERIF_NO_OBLIGATION_CACHE") != "1" and ctx.tier != "thorough" and os.path.exists(stamp):
+    if os.environ.get("VERIF_OBLIGATION_CACHE") == "1" and ctx.tier != "thorough" and os.path.exists(stamp):
         rec = open(stamp).read().split("\n", 1)
         if rec[0] == key:
             ctx.obligations += n
